@@ -4,7 +4,7 @@ import sys, os, json, subprocess, collections
 sys.path.insert(0, os.path.dirname(os.path.abspath(__file__)))
 import vx, run
 props = sys.argv[1].split(",") if len(sys.argv) > 1 else ["C%02d" % i for i in range(1, 19)]
-seeds = [int(x) for x in (sys.argv[2].split(",") if len(sys.argv) > 2 else ["0", "1", "2"])]
+seeds = (sys.argv[2].split(",") if len(sys.argv) > 2 else ["0", "1", "2", "s3"])     # "s3" = seed 3 with -V spinoff-all (as the thorough tier does)
 out = os.environ.get("SWEEP_OUT", "/root/scratch/vsweep"); os.makedirs(out, exist_ok=True)
 bad = collections.Counter()
 for p in props:
@@ -13,8 +13,9 @@ for p in props:
     u = vx.generate(repo, ov, p)
     path = os.path.join(out, "unit_%s.rs" % p); open(path, "w").write(u.text)
     for sd in seeds:
-        r = run.run_verus(path, u, rlimit=30, seed=sd)
-        fails = sorted(set([run_oid for run_oid in ["%s/%s" % (f["fn"], f["kind"]) for f in r.failures]] + ["RLIMIT:" + q for q in r.fn_rlimit] + ["UNDEC:" + x[:120] for x in r.undecided]))
+        spin = str(sd).startswith("s"); sdi = int(str(sd).lstrip("s"))
+        r = run.run_verus(path, u, rlimit=60 if spin else 30, seed=sdi, spinoff=spin)
+        fails = sorted(set([run_oid for run_oid in ["%s/%s" % (f["fn"], f["kind"]) for f in r.failures]] + ["RLIMIT:" + q for q in r.fn_rlimit] + ["UNDEC:" + x[:120] for x in r.undecided] + ["LIB:" + x[:140] for x in r.library_failures]))
         fails = [f for f in fails if f not in ("FileDbXxxInner::del_kt/pre", "FileDbXxxInner::put_kt/pre", "HtxFile::open_with_params/pre", "KeyFile::open_with_params/pre", "ValueFile::open_with_params/pre")]
         print(p, sd, r.raw_summary.get("verified"), r.raw_summary.get("errors"), fails, flush=True)
         for f in fails: bad[f] += 1
